@@ -186,7 +186,7 @@ type env struct {
 	rstore   *memBackend
 	rbuf     *ingest.ArrowBuffer
 	recv     *replication.Receiver
-	parquet  []byte // a real Parquet file produced by the pipeline (columns time, v, _measurement, database)
+	parquet  []byte // a real Parquet file produced by the pipeline (columns time, v, measurement, database; `_`-prefixed columns are dropped by the Parquet writer)
 	local    *storage.LocalBackend
 	seq      uint64
 }
@@ -265,8 +265,8 @@ func (e *env) makeParquet() {
 	cols := map[string][]interface{}{
 		"time":         {tsMicros},
 		"v":            {int64(1)},
-		"_measurement": {"evil_m"},
-		"database":     {"evil_db2"},
+		"measurement": {"evil_m2"},
+		"database":    {"evil_db2"},
 	}
 	if err := e.rbuf.WriteColumnarDirectNoWAL(context.Background(), "seed", "seed", cols); err != nil {
 		panic(err)
@@ -385,6 +385,15 @@ func (e *env) run(req *http.Request) obs {
 	caps := e.captured
 	e.captured = nil
 	o.nwal = len(caps)
+	if os.Getenv("C32_DEBUG") != "" {
+		for _, p := range caps {
+			q := p
+			if len(q) > 300 {
+				q = q[:300]
+			}
+			fmt.Fprintf(os.Stderr, "DEBUG %s wal entry %d bytes: %q\n", req.URL.String(), len(p), q)
+		}
+	}
 	for _, p := range caps {
 		if len(p) > 0 && p[0] == wal.WALEnvelopeMarker {
 			o.walRaw++
@@ -456,14 +465,6 @@ func (e *env) monitors(ri reqInfo, o *obs) {
 	}
 	type stored struct{ db, m, how string }
 	var all []stored
-	for _, k := range o.keys {
-		parts := ingest.VerifC32SplitBufferKey(k)
-		if len(parts) == 2 {
-			all = append(all, stored{parts[0], parts[1], "buffer key " + fmt.Sprintf("%q", k)})
-		} else {
-			all = append(all, stored{k, "", "buffer key " + fmt.Sprintf("%q", k)})
-		}
-	}
 	for _, p := range o.paths {
 		pre, _ := normPath(p)
 		i := strings.IndexByte(pre, '/')
@@ -472,6 +473,14 @@ func (e *env) monitors(ri reqInfo, o *obs) {
 			db, m = pre[:i], pre[i+1:]
 		}
 		all = append(all, stored{db, m, "storage path " + fmt.Sprintf("%q", p)})
+	}
+	for _, k := range o.keys {
+		parts := ingest.VerifC32SplitBufferKey(k)
+		if len(parts) == 2 {
+			all = append(all, stored{parts[0], parts[1], "buffer key " + fmt.Sprintf("%q", k)})
+		} else {
+			all = append(all, stored{k, "", "buffer key " + fmt.Sprintf("%q", k)})
+		}
 	}
 	for _, s := range all {
 		if !named[s.db] {
@@ -502,8 +511,8 @@ func (e *env) monitors(ri reqInfo, o *obs) {
 	}
 	for _, k := range o.rkeys {
 		parts := ingest.VerifC32SplitBufferKey(k)
-		if len(parts) != 2 {
-			continue
+		if len(parts) != 2 || o.status != "ok" {
+			continue // (a rejected request that stored rows is reported by the monitors above)
 		}
 		if !wdb[parts[0]] {
 			c.Fail("replicated-row-stored-outside-request-database:unenveloped-wal-rows",
@@ -515,6 +524,9 @@ func (e *env) monitors(ri reqInfo, o *obs) {
 		}
 	}
 }
+
+func parseEnvelopeDB(p []byte) string { db, _ := wal.ParseEnvelope(p, "default"); return db }
+func nil2ctx() context.Context         { return context.Background() }
 
 func keysOf(m map[string]bool) []string {
 	var out []string
